@@ -1,8 +1,163 @@
-(** * C10 property theorems -- statements only; proofs live in C10/*Proofs.v. *)
-From Coq Require Import List Arith Bool.
-From Celer Require Import C10.Csg C10.CsgProofs.
+(** * C10 property theorems -- statements only; proofs live in C10/*Proofs.v.
+    Each theorem is closed by [exact] and followed by [Print Assumptions].
+
+    Vocabulary (coq/C10/Csg.v, CsgProofs.v):
+    [eval t s i]      truth value of node [i] of tree [t] under sense assignment [s];
+    [inv t]           topologically sorted + nodes 0/1 are true/false + table ids in range;
+    [ids_sound t s]   the hash-cons table is sound under [s] -- this is how
+                      "consistent with the constants replaced so far" is expressed
+                      (a replaced surface stays in the table mapped to an alias of true/false);
+    [Ok _]            no assertion site reached, no exception, fuel sufficient. *)
+From Coq Require Import List Arith Bool NArith ZArith.
+From Celer Require Import C10.Csg C10.Logic C10.DeMorgan C10.Run
+  C10.CsgProofs C10.LogicProofs C10.ReplaceProofs C10.FlagProofs C10.DeMorganProofs C10.Witness.
 Import ListNotations.
 
-Theorem C10_node_eqb_eq : forall a b, node_eqb a b = true -> a = b.
-Proof. exact node_eqb_eq. Qed.
-Print Assumptions C10_node_eqb_eq.
+(** NodeSimplifier: the replacement evaluates like the given node, for every
+    tree, node and sense assignment; its operands stay below any bound that
+    held for the given node (topological order). *)
+Theorem C10_simplify_node_sound : forall t s n r,
+  wf t -> base t -> simplify_node t n = Ok r ->
+  match r with
+  | None => True
+  | Some n' => eval_node s (eval t s) n' = eval_node s (eval t s) n
+  end.
+Proof. intros t s n r Hw Hb. exact (simplify_node_value t s Hw Hb n r). Qed.
+Print Assumptions C10_simplify_node_sound.
+
+Theorem C10_simplify_node_order : forall t m n r,
+  wf t -> simplify_node t n = Ok r -> 2 <= m ->
+  (forall c, In c (children n) -> c < m) ->
+  match r with
+  | None => True
+  | Some n' => forall c, In c (children n') -> c < m
+  end.
+Proof. intros t m n r Hw. exact (simplify_node_children t (fun _ => true) Hw m n r). Qed.
+Print Assumptions C10_simplify_node_order.
+
+(** CsgTree::insert: invariants (incl. topological order) kept, old nodes
+    untouched, the returned id evaluates like the given node, existing ids
+    keep their value, the table stays sound. *)
+Theorem C10_insert_sound : forall t n t' i b,
+  inv t -> insert t n = Ok (t', i, b) ->
+  inv t' /\ is_prefix_tree t t' /\ i < size t' /\ volumes t' = volumes t /\
+  forall s, ids_sound t s ->
+    ids_sound t' s /\
+    (forall k, k < size t -> eval t' s k = eval t s k) /\
+    eval t' s i = eval_node s (eval t s) n.
+Proof. exact insert_sound. Qed.
+Print Assumptions C10_insert_sound.
+
+(** CsgTree::exchange (with the one extra topological check in the swap
+    branch, see [C10_exchange_topo_refuted]): values, table, order kept; and
+    the unchecked (faithful) function returns the same result. *)
+Theorem C10_exchange_sound : forall t i n t' old,
+  inv t -> exchange true t i n = Ok (t', old) ->
+  (forall c, In c (children n) -> c < i) ->
+  inv t' /\ size t' = size t /\ volumes t' = volumes t /\
+  exchange false t i n = Ok (t', old) /\
+  forall s, ids_sound t s -> eval_node s (eval t s) n = eval t s i ->
+    ids_sound t' s /\ forall k, eval t' s k = eval t s k.
+Proof. exact exchange_sound. Qed.
+Print Assumptions C10_exchange_sound.
+
+(** The faithful exchange can lose the topological order although its
+    documented preconditions hold (witness replayed on the real code). *)
+Theorem C10_exchange_topo_refuted :
+  exists t i n t' old,
+    tree_after empty_tree r1_ops = Ok t /\
+    inv t /\ (forall c, In c (children n) -> c < i) /\
+    exchange false t i n = Ok (t', old) /\
+    (exists s, ids_sound t s /\ eval_node s (eval t s) n = eval t s i) /\
+    ~ wf t'.
+Proof. exact exchange_topo_refuted_w. Qed.
+Print Assumptions C10_exchange_topo_refuted.
+
+(** PostfixLogicBuilder + calc_max_depth + LogicEvaluator on the W-bit
+    LogicStack: the reported depth is exactly the greatest stack height, and
+    if it fits the stack the evaluator returns the node's value, for every
+    assignment; with or without surface remapping. *)
+Theorem C10_postfix_eval_correct : forall t s mapping W fuel n faces lgc,
+  wf t -> 1 <= W -> build_postfix fuel t mapping n = Ok (faces, lgc) ->
+  calc_max_depth lgc = Ok (Some (Z.of_nat (max_height lgc 0))) /\
+  1 <= max_height lgc 0 /\
+  (max_height lgc 0 <= W ->
+   logic_evaluate W lgc (map (umap s mapping) faces) = Ok (eval t s n)).
+Proof. intros t s mapping W fuel n faces lgc Hw. exact (postfix_eval_correct_gen t s Hw mapping W fuel n faces lgc). Qed.
+Print Assumptions C10_postfix_eval_correct.
+
+(** The bit-field stack refines the unbounded list stack (both directions). *)
+Theorem C10_logic_stack_refines_list : forall W values l b,
+  1 <= W -> l <> [] -> list_run (nth_error values) [] l = Some [b] -> max_height l 0 <= W ->
+  logic_evaluate W l values = Ok b.
+Proof. intros W values l b HW. exact (logic_stack_refines_list W HW values l b). Qed.
+Print Assumptions C10_logic_stack_refines_list.
+
+Theorem C10_logic_evaluate_list : forall W values l b,
+  1 <= W -> logic_evaluate W l values = Ok b -> list_run (nth_error values) [] l = Some [b].
+Proof. intros W values l b HW. exact (logic_evaluate_list W HW values l b). Qed.
+Print Assumptions C10_logic_evaluate_list.
+
+(** calc_max_depth on ANY well-formed postfix vector is the true maximum
+    stack height; a vector that does not reduce to one value is invalid. *)
+Theorem C10_calc_max_depth_exact : forall vf l b,
+  l <> [] -> list_run vf [] l = Some [b] ->
+  calc_max_depth l = Ok (Some (Z.of_nat (max_height l 0))) /\ 1 <= max_height l 0.
+Proof. exact calc_max_depth_exact. Qed.
+Print Assumptions C10_calc_max_depth_exact.
+
+Theorem C10_calc_max_depth_invalid : forall vf l st',
+  l <> [] -> list_run vf [] l = Some st' -> length st' <> 1 -> calc_max_depth l = Ok None.
+Proof. exact calc_max_depth_invalid. Qed.
+Print Assumptions C10_calc_max_depth_invalid.
+
+(** replace_and_simplify: for every assignment consistent with the earlier
+    replacements and with the new constant, every node keeps its value. *)
+Theorem C10_replace_and_simplify_sound : forall fuel t key value t' unk,
+  inv t -> replace_and_simplify true fuel t key value = Ok (t', unk) ->
+  inv t' /\ size t' = size t /\
+  replace_and_simplify false fuel t key value = Ok (t', unk) /\
+  forall s, ids_sound t s -> eval t s key = value ->
+    ids_sound t' s /\ forall k, eval t' s k = eval t s k.
+Proof. exact replace_and_simplify_sound. Qed.
+Print Assumptions C10_replace_and_simplify_sound.
+
+(** simplify (iterated simplify_up sweeps) *)
+Theorem C10_simplify_sound : forall t start t',
+  inv t -> simplify_tree true t start = Ok t' ->
+  inv t' /\ size t' = size t /\ volumes t' = volumes t /\
+  simplify_tree false t start = Ok t' /\
+  forall s, ids_sound t s -> ids_sound t' s /\ forall j, eval t' s j = eval t s j.
+Proof. exact simplify_tree_sound. Qed.
+Print Assumptions C10_simplify_sound.
+
+(** InternalSurfaceFlagger: a node not flagged is a nested conjunction of
+    literals: if it is true, flipping any one of its faces makes it false. *)
+Theorem C10_flag_simple_sound : forall t fuel n,
+  wf t -> no_neg_alias t -> flag_internal fuel t n = Ok false ->
+  forall s x, In x (surfs fuel t n) -> eval t s n = true -> eval t (flip x s) n = false.
+Proof. intros t fuel n Hw Hn. exact (flag_simple_sound_gen t Hw Hn fuel n). Qed.
+Print Assumptions C10_flag_simple_sound.
+
+(** Without [no_neg_alias] (a half-simplified tree reachable through the
+    public API) the flag is wrong (witness replayed on the real code). *)
+Theorem C10_flag_simple_alias_refuted :
+  exists t n s x,
+    tree_after empty_tree r2_ops = Ok t /\ inv t /\
+    flag_internal (S (size t)) t n = Ok false /\
+    In x (surfs (S (size t)) t n) /\
+    eval t s n = true /\ eval t (flip x s) n = true.
+Proof. exact flag_simple_alias_refuted_w. Qed.
+Print Assumptions C10_flag_simple_alias_refuted.
+
+(** transform_negated_joins (DeMorganSimplifier): every volume of the output
+    tree has the boolean function of the corresponding input volume for EVERY
+    assignment, independently of what should_insert_join decides, and the
+    output satisfies the tree invariants. Partial: "no negated join remains"
+    is not proved (checked by the oracle on every run). *)
+Theorem C10_demorgan_sound_partial : forall t t' tr,
+  wf t -> demorgan_full t = Ok (t', tr) ->
+  inv t' /\
+  forall s, Forall2 (fun v' v => eval t' s v' = eval t s v) (volumes t') (volumes t).
+Proof. exact demorgan_sound_equiv. Qed.
+Print Assumptions C10_demorgan_sound_partial.
